@@ -4,13 +4,13 @@ from ._core_common import *  # noqa
 PROP = "C02"
 SCHEDULERS = ("eager", "rr")
 OPTS = dict(p_mbefore=0.5, multi=True, mgroup=True, p_single_group=0.3, alias=True, combiner=True, fsm=True, nested_methods=True, p_fresh=0.96, p_conflict=0.6, p_mconflict=0.8, n_mconflict=2, p_tm_conflict=0.4, mprio=True, min_tr=3, p_group=0.8)
-BOUNDS = {"quick": "fixed relation family (61 designs: cross-module add_conflict in same-position alternatives of If/Switch/FSM, prioritised method conflicts lifted over an exclusive caller pair, bodies with two ready-dependency sources) + 40 batches x 12 random designs rich in add_conflict relations (t-t, m-m, t-m; all priorities), both schedulers", "thorough": "400 batches x 25 designs"}
+BOUNDS = {"quick": "fixed relation family (61 designs: cross-module add_conflict in same-position alternatives of If/Switch/FSM, prioritised method conflicts lifted over an exclusive caller pair, bodies with two ready-dependency sources) + 40 batches x 12 random designs rich in add_conflict relations (t-t, m-m, t-m; all priorities), both schedulers", "thorough": "1600 batches x 25 designs"}
 OUTSIDE = OUTSIDE_COMMON
 ASSUMES = ASSUMES_COMMON
 
 
 def configs(tier, seed):
-    return systematic_configs(SCHEDULERS, family="relations") + batch_configs(tier, seed, 40, 400, 12 if tier == "quick" else 25, OPTS, SCHEDULERS)
+    return systematic_configs(SCHEDULERS, family="relations") + batch_configs(tier, seed, 40, 1600, 12 if tier == "quick" else 25, OPTS, SCHEDULERS)
 
 
 def run(cfg, ctx):
